@@ -36,6 +36,10 @@ func loadURL(listURL string) (pemBlocks map[string][]byte, err error) {
 			return nil, err
 		}
 		defer resp.Body.Close()
+		// an error page is not certificate material
+		if resp.StatusCode != http.StatusOK {
+			return nil, fmt.Errorf("%s: %s", url, resp.Status)
+		}
 		return io.ReadAll(resp.Body)
 	}
 
